@@ -62,13 +62,19 @@ structure Tree (Z : Type) where
   s : Bool
   leaves : List Z      -- leaves visited, in visiting order
   nodes : Nat          -- increments of `_num_tree_node`
+  wts : List Rat       -- law of `cand` over the visited leaves under uniform draws (aligned with `leaves`)
 
 /-- `rand() <= n2 / max(1, n1 + n2)`, decided exactly. -/
 def takeSecond (u : Rat) (n1 n2 : Nat) : Bool :=
   decide (u * ((max 1 (n1 + n2) : Nat) : Rat) ≤ (n2 : Rat))
 
+/-- `alpha2 = n2 / max(1, n1 + n2)` -/
+def secondProb (n1 n2 : Nat) : Rat := (n2 : Rat) / ((max 1 (n1 + n2) : Nat) : Rat)
+
+/-- next uniform draw; an exhausted script yields `1/2` (the harness always supplies enough draws and
+    compares the number consumed with the implementation's). -/
 def popU : List Rat → Rat × List Rat
-  | [] => (0, [])
+  | [] => (1/2, [])
   | u :: rest => (u, rest)
 
 /-- `_BuildTree(…, v, j, …)`; consumes uniforms from `us`, returns the tree and the remaining draws. -/
@@ -76,7 +82,7 @@ def buildTree {Z} (c : Ctx Z) (v : Int) : Nat → Z → List Rat → Tree Z × L
   | 0, z, us =>
     let z' := c.step v z
     ({ zminus := z', zplus := z', cand := z', n := if inSlice c z' then 1 else 0,
-       s := notDiverged c z', leaves := [z'], nodes := 1 }, us)
+       s := notDiverged c z', leaves := [z'], nodes := 1, wts := [1] }, us)
   | j + 1, z, us =>
     let (t1, us1) := buildTree c v j z us
     if t1.s then
@@ -90,7 +96,8 @@ def buildTree {Z} (c : Ctx Z) (v : Int) : Nat → Z → List Rat → Tree Z × L
          n := t1.n + t2.n,
          s := t2.s && c.noUturn zminus zplus,
          leaves := t1.leaves ++ t2.leaves,
-         nodes := 1 + t1.nodes + t2.nodes }, us3)
+         nodes := 1 + t1.nodes + t2.nodes,
+         wts := t1.wts.map ((1 - secondProb t1.n t2.n) * ·) ++ t2.wts.map (secondProb t1.n t2.n * ·) }, us3)
     else
       ({ t1 with nodes := 1 + t1.nodes }, us1)
 
@@ -114,7 +121,7 @@ def loopBody {Z} (c : Ctx Z) (guard : Z → Bool) (st : Loop Z) : Loop Z :=
   let v : Int := if ud < 1/2 then 1 else -1
   let (t, us1) := buildTree c v st.j (if v = -1 then st.zminus else st.zplus) us0
   let zminus := if v = -1 then t.zminus else st.zminus
-  let zplus := if v = -1 then t.zplus else st.zplus
+  let zplus := if v = -1 then st.zplus else t.zplus
   -- `(s_prime == 1) and (rand() <= min(1, n'/n)) and guards` : rand() only drawn if s_prime == 1
   let (accept, us2) :=
     if t.s then
